@@ -218,6 +218,53 @@ Definition handle_dgram (c : cfg) (now : N) (st : ust) (d : dgram) : ust * outco
   else if d_rvec d =? VECTOR_ROOT_E131_REV2 then handle_wire c now st (with_rev2 true (d_wire d))
   else (st, OIgnore).
 
+(* ------------------------------------------------------------------ one inflator, several universes, API calls *)
+(* DMPE131Inflator::m_handlers: universe -> universe_handler.  SetHandler on a universe that is already
+   registered replaces buffer / priority pointer / closure and KEEPS sources and active_priority;
+   RemoveHandler drops the universe with its state; a packet only touches the handler of its universe. *)
+Definition istate := list (N * ust).
+
+Fixpoint ilook (S : istate) (u : N) : option ust :=
+  match S with
+  | [] => None
+  | (v, st) :: t => if v =? u then Some st else ilook t u
+  end.
+Fixpoint iset (u : N) (st : ust) (S : istate) : istate :=
+  match S with
+  | [] => [(u, st)]
+  | (v, x) :: t => if v =? u then (u, st) :: t else (v, x) :: iset u st t
+  end.
+Fixpoint idel (u : N) (S : istate) : istate :=
+  match S with
+  | [] => []
+  | (v, x) :: t => if v =? u then idel u t else (v, x) :: idel u t
+  end.
+
+Inductive iop :=
+| IPkt (p : pkt)                 (* a DMP PDU for universe p_univ p *)
+| IReg (u : N) (fresh : bool)    (* SetHandler(u, ...): fresh = with a new (empty) buffer and priority byte *)
+| IUnreg (u : N).                (* RemoveHandler(u) *)
+
+(* re-registration with new output objects: the registered buffer is the new, empty one *)
+Definition rebuffer (st : ust) : ust := mkU [] 0 (u_active st) (u_srcs st).
+
+Definition inflator_op (ignore_preview : bool) (now : N) (S : istate) (op : iop) : istate * outcome :=
+  match op with
+  | IPkt p =>
+    match ilook S (p_univ p) with
+    | Some st =>
+      let r := handle (mkCfg ignore_preview (p_univ p)) now st p in
+      (iset (p_univ p) (fst r) S, snd r)
+    | None => (S, OIgnore)
+    end
+  | IReg u fresh =>
+    (match ilook S u with
+     | None => iset u init_ust S
+     | Some st => if fresh then iset u (rebuffer st) S else S
+     end, OIgnore)
+  | IUnreg u => (idel u S, OIgnore)
+  end.
+
 (* ------------------------------------------------------------------ Art-Net *)
 Record asrc := mkA { a_addr : N; a_ts : N; a_buf : list N }.   (* address 0 = wildcard = empty slot *)
 Record aport := mkP { ap_srcs : list asrc; ap_merging : bool; ap_buf : list N }.
@@ -290,7 +337,8 @@ Inductive nop :=
 | NDisable (i : nat)                     (* DisableOutputPort(i) *)
 | NMode (i : nat) (ltp : bool)           (* SetMergeMode(i, mode) *)
 | NSubnet (s : N)                        (* SetSubnetAddress(s) *)
-| NNet (n : N).                          (* SetNetAddress(n) *)
+| NNet (n : N)                           (* SetNetAddress(n) *)
+| NSendFail (b : bool).                  (* from now on the node's own SendTo calls fail / succeed *)
 
 Definition init_node : node :=
   mkN 0 (repeat (mkNP false 0 false init_aport) (N.to_nat ARTNET_MAX_PORTS)).
@@ -332,6 +380,7 @@ Definition node_op (now : N) (nd : node) (op : nop) : node * list bool :=
          (map (fun p => mkNP (np_en p) (N.lor (u8 (s * 16)) (N.land (np_addr p) 15)) (np_ltp p) (np_port p))
               (n_ports nd)), quiet)
   | NNet n => (mkN (N.land n 127) (n_ports nd), quiet)
+  | NSendFail _ => (nd, quiet)     (* reception and merging do not depend on the node's transmissions *)
   end.
 
 (* ------------------------------------------------------------------ runs over histories *)
